@@ -1,6 +1,7 @@
 /-
   Line-protocol front end of the Writes layer (C10). One line = one whole history:
   {"layer":"writes","topo":{"chars":[[aid,iid,svc],..],"svcCb":[[aid,svc],..],"accCb":[aid,..]},
+   (an entry whose (aid, iid) is not in topo.chars names something that is not a characteristic)
    "init":[[aid,iid,val],..],"ops":[op,..]}            (see harness/props/c10.py)
 -/
 import HapModel.Drv.Util
@@ -44,7 +45,8 @@ def topoOf (j : Json) : R (Topo × List CharId) := do
   let T : Topo := {
     svc := fun c => ((chars.find? (fun x => x.1 = c)).map (·.2)).getD 0
     svcCb := fun a s => svcCb.contains (a, s)
-    accCb := fun a => accCb.contains a }
+    accCb := fun a => accCb.contains a
+    known := fun c => (chars.map (·.1)).contains c }
   pure (T, chars.map (·.1))
 
 def cbOf (j : Json) : R CharCb :=
@@ -55,16 +57,13 @@ def cbOf (j : Json) : R CharCb :=
   | .arr #[.str "ret", .str s] => pure (.returns (some s))
   | _ => throw "cb: expected \"none\" | \"raise\" | [\"ret\", val|null]"
 
-def queryOf (known : List CharId) (j : Json) : R Query := do
+def queryOf (_known : List CharId) (j : Json) : R Query := do
   let id : CharId := ⟨← getNat j "aid", ← getNat j "iid"⟩
-  if !known.contains id then throw s!"query addresses an unknown characteristic {id.aid}.{id.iid} (out of scope)"
   pure { id := id, hasValue := ← getBool j "hasValue", value := ← optStr j "value",
          wr := ← getBool j "r", valid := ← optStr j "valid", cb := ← cbOf (← getObj j "cb") }
 
 def batchOf (known : List CharId) (j : Json) : R Batch := do
   let qs ← (← getArr j "entries").toList.mapM (queryOf known)
-  let ids := qs.map (·.id)
-  if ids.eraseDups.length != ids.length then throw "duplicate (aid, iid) in one batch (out of scope)"
   let sr ← (← getArr j "svcRaise").toList.mapM natPair
   let ar ← (← getArr j "accRaise").toList.mapM asNat
   pure { pid := ← optInt j "pid", queries := qs,
